@@ -104,13 +104,14 @@ def cmp : Cmp Nat where
 /-- stand-ins for the trigonometric functions over the prime field, the same ones as in `harness/c20.cpp`, so that the
 code paths that call `cos`/`sin`/`acos` can be executed exactly: the rational parametrisation
 `cos x = (1-x²)/(1+x²)`, `sin x = 2x/(1+x²)` of the unit circle (so `cos² + sin² = 1` whenever `1+x² ≠ 0`),
-`acos w = sqrt((1-w)/(1+w))` (a right inverse of `cos` when that root exists), `PI = 3`; `asin`, `atan2` unused -/
+`acos w = sqrt((1-w)/(1+w))` (a right inverse of `cos` when that root exists),
+`atan2 y x = y/(sqrt(x²+y²)+x)` (the half-angle tangent of the point `(x, y)`), `PI = 3`; `asin` unused -/
 def trig : Trig Nat where
   cos x := fld.div (fld.sub 1 (fld.mul x x)) (fld.add 1 (fld.mul x x))
   sin x := fld.div (fld.mul 2 x) (fld.add 1 (fld.mul x x))
   asin x := x
   acos w := cmp.sqrt (fld.div (fld.sub 1 w) (fld.add 1 w))
-  atan2 y _ := y
+  atan2 y x := fld.div y (fld.add (cmp.sqrt (fld.add (fld.mul x x) (fld.mul y y))) x)
   pi := 3
 end Fp
 
